@@ -60,6 +60,7 @@ type scenario struct {
 	Procs    []procSpec
 	Preempt  int // -1 unbounded
 	Crashes  int
+	Faults   int // injected I/O faults per execution (EIO on one filesystem call)
 	Why      string
 	InitAuto bool
 	// MixedHash: handles are opened with different hash ids (the open-on-clone check would need to guess one)
@@ -132,7 +133,7 @@ func (sc *scenario) build(prop string) (*mc.Scenario, error) {
 		w.Atomic = false
 		return w
 	}
-	return &mc.Scenario{Name: sc.Name, Build: build, MaxPreempt: sc.Preempt, MaxCrashes: sc.Crashes, GlobalsHash: globalsHash}, nil
+	return &mc.Scenario{Name: sc.Name, Build: build, MaxPreempt: sc.Preempt, MaxCrashes: sc.Crashes, MaxFaults: sc.Faults, GlobalsHash: globalsHash}, nil
 }
 
 func handle(p *mc.Proc) *reftable.Stack {
